@@ -919,6 +919,11 @@ void matrixSslDeleteSession(ssl_t *ssl)
         }
 
         psFree(ssl->tls13ClientCipherSuites, ssl->hsPool);
+        /* The CertificateVerify signature is kept across SSL_FULL
+           re-entries; a handshake that fails before the flight is done
+           never reaches tls13ClearHsTemporaryState(). */
+        psFree(ssl->sec.tls13CvSig, ssl->hsPool);
+        ssl->sec.tls13CvSig = NULL;
     }
 #endif
 #ifdef REQUIRE_DH_PARAMS
